@@ -7,8 +7,8 @@
    Parser half (proofs/ParserLinesProof.v): the line recorded for a data row = the line counter at
    the row = header line + Eol tokens consumed; combined with the lexer half: C19_row_line.
    Property theorems only; proofs in proofs/LexerProof.v, ExpandProof.v, IterLogProof.v. *)
-From DTR Require Import Prelude I64 Ast FramedMap Lexer Parser Bind Eval Stmt Iter ExpandSpec Dig.
-From DTR.proofs Require Import LexerProof ParserProof ParserLinesProof ExpandProof IterLogProof DigLinesProof.
+From DTR Require Import Prelude I64 Ast FramedMap Lexer Parser Bind Eval Stmt Iter Static ExpandSpec Dig.
+From DTR.proofs Require Import LexerProof ParserProof ParserLinesProof ExpandProof IterLogProof RunRefineE DigLinesProof OutputsRunProof LinesRunProof.
 Local Open Scope N_scope.
 
 (* the number of Eol tokens before any token = the number of newlines before it in the text *)
@@ -69,6 +69,74 @@ Theorem C19_lines_of_a_loaded_test_are_relative_to_its_own_source :
          (row_lines (tc_stmts tc)).
 Proof. exact load_test_row_lines. Qed.
 
+(* RUN LEVEL, through error items: every row yielded by any run of an accepted, bound test reports as its line 1 + the number of newlines before the place in the source text where its data row starts *)
+Theorem C19_every_row_of_every_run_reports_its_source_position :
+  forall (G : gen) (DE : Type) (D : driver DE) (w_default : bool) (s : text) 
+  (p : parsed) (sigs0 : list signal) (tc : testcase) (fuel n : nat) (st0 : istate),
+  parse s = Ok p ->
+  with_signals p sigs0 = Ok tc ->
+  try_new DE D tc = NewOk DE st0 ->
+  Forall
+  (WidthProof.item_rows DE
+  (fun row : data_row =>
+  exists u v : list N, s = u ++ v /\ dr_line row = N.of_nat (1 + count_nl u) /\ row_starts_here v))
+  (fst (collect_e G DE D w_default tc fuel n st0)).
+Proof. exact row_line_is_its_source_position. Qed.
+
+(* the same for the static iterator *)
+Theorem C19_every_static_row_reports_its_source_position :
+  forall (G : gen) (s : text) (p : parsed) (sigs0 : list signal) (tc : testcase) 
+  (fuel n : nat) (st0 : istate),
+  parse s = Ok p ->
+  with_signals p sigs0 = Ok tc ->
+  try_iter_static tc = StaticOk st0 ->
+  Forall
+  (static_rows
+  (fun r : static_data_row =>
+  exists u v : list N,
+  s = u ++ v /\ static_line r = N.of_nat (1 + count_nl u) /\ row_starts_here v))
+  (fst (static_collect G tc fuel n st0)).
+Proof. exact static_row_line_is_its_source_position. Qed.
+
+(* (the line of a yielded row is the line of a row statement of the program - whatever the driver, the generator, the errors before it) *)
+Theorem C19_every_row_line_is_a_row_statement_line :
+  forall (G : gen) (DE : Type) (D : driver DE) (w_default : bool) (tc : testcase) 
+  (fuel n : nat) (st0 : istate),
+  try_new DE D tc = NewOk DE st0 ->
+  Forall (WidthProof.item_rows DE (fun row : data_row => In (dr_line row) (row_lines (tc_stmts tc))))
+  (fst (collect_e G DE D w_default tc fuel n st0)).
+Proof. exact every_row_line_is_a_source_row_line. Qed.
+
+(* rows that come from the same evaluated source row (its C / X expansions) report the same line, also when one of them fails on the way *)
+Theorem C19_expansions_and_passes_share_the_line :
+  forall (G : gen) (DE : Type) (D : driver DE) (w_default : bool) (tc : testcase) 
+  (fuel n : nat) (st0 : istate) (pre : list (bool * item_view DE)) (b : bool)
+  (r1 : data_row) (mid : list (bool * item_view DE)) (r2 : data_row)
+  (post : list (bool * item_view DE)),
+  try_new DE D tc = NewOk DE st0 ->
+  collect_e_tagged G DE D w_default tc fuel n st0 =
+  pre ++ (b, VRow r1) :: mid ++ (false, VRow r2) :: post ->
+  Forall (fun x : bool * item_view DE => fst x = false) mid -> dr_line r1 = dr_line r2.
+Proof. exact expansions_and_passes_share_the_line. Qed.
+
+(* for a test loaded from a .dig document the position is counted in that test's own source text, for every row of every run *)
+Theorem C19_rows_of_a_loaded_test_report_positions_in_its_own_source :
+  forall (G : gen) (DE : Type) (D : driver DE) (w_default : bool) (f : dig_file) 
+  (k : nat) (tc : testcase) (fuel n : nat) (st0 : istate),
+  load_test f k = Ok tc ->
+  try_new DE D tc = NewOk DE st0 ->
+  exists (nm : name) (src : text),
+  nth_error (df_tests f) k = Some (nm, src) /\
+  Forall
+  (WidthProof.item_rows DE
+  (fun row : data_row =>
+  exists u v : list N,
+  src = u ++ v /\ dr_line row = N.of_nat (1 + count_nl u) /\ row_starts_here v))
+  (fst (collect_e G DE D w_default tc fuel n st0)).
+Proof. exact loaded_test_row_line_is_its_source_position. Qed.
+
+
+
 
 Check C19_row_line.
 Check C19_eol_tokens_are_newlines.
@@ -77,3 +145,6 @@ Print Assumptions C19_header_lines.
 Print Assumptions C19_row_line.
 Print Assumptions C19_row_line_ordered.
 Print Assumptions C19_lines_of_a_loaded_test_are_relative_to_its_own_source.
+Print Assumptions C19_every_row_of_every_run_reports_its_source_position.
+Print Assumptions C19_expansions_and_passes_share_the_line.
+Print Assumptions C19_rows_of_a_loaded_test_report_positions_in_its_own_source.
